@@ -13,6 +13,7 @@ fn table() -> Vec<(&'static str, RunFn, ReplayFn)> {
         ("C01", props::c01::run as RunFn, props::c01::replay as ReplayFn),
         ("C02", props::c02::run as RunFn, props::c02::replay as ReplayFn),
         ("C03", props::c03::run as RunFn, props::c03::replay as ReplayFn),
+        ("C04", props::c04::run as RunFn, props::c04::replay as ReplayFn),
         ("C05", props::c05::run as RunFn, props::c05::replay as ReplayFn),
         ("C06", props::c06::run as RunFn, props::c06::replay as ReplayFn),
         ("C07", props::c07::run as RunFn, props::c07::replay as ReplayFn),
@@ -36,6 +37,9 @@ fn main() {
     let args: Vec<String> = std::env::args().skip(1).collect();
     if args.is_empty() {
         usage();
+    }
+    if args[0] == "--worker" {
+        rv::worker::worker_main();
     }
     let id = args[0].clone();
     let mut tier = match std::env::var("VERIF_TIER").ok().as_deref() {
